@@ -253,6 +253,14 @@ func DrawIllTyped(t *rapid.T) IllTyped {
 	layout := rapid.IntRange(0, 5).Draw(t, "layout")
 
 	var pb strings.Builder
+	// A first change that damages what the prolog of the second one looks at:
+	// the import path literal, the package name.
+	if strings.Contains(prolog, "\"a/b\"") && rapid.IntRange(0, 4).Draw(t, "saboteur") == 0 {
+		pb.WriteString(pick(t, "saboteurText", []string{
+			"@@\n@@\n-\"a/b\"\n+1\n\n", "@@\n@@\n-\"a/b\"\n+x\n\n", "@@\n@@\n-\"a/b\"\n+\"a/b\" + \"c\"\n\n", "@@\n@@\n-\"a/b\"\n+foo()\n\n",
+			"@@\n@@\n-\"a/b\"\n+`a/b`\n\n", "@@\n@@\n-\"a/b\"\n+\"\"\n\n", "@@\n@@\n-\"c/d\"\n+nil\n\n",
+		}))
+	}
 	pb.WriteString("@@\n")
 	for _, m := range meta {
 		pb.WriteString(m + "\n")
@@ -331,7 +339,30 @@ func DrawIllTyped(t *rapid.T) IllTyped {
 		if i := strings.Index(imp, "import"); i >= 0 {
 			imp = imp[i:]
 		}
-		tb.WriteString(substituteNames(imp, fill) + "\n\n")
+		imp = substituteNames(imp, fill)
+		if rapid.IntRange(0, 3).Draw(t, "importDecor") == 0 {
+			// the import section as real files have it: grouped with other
+			// imports, blank lines, comments, and now and then a //line directive
+			var specs []string
+			for _, l := range strings.Split(imp, "\n") {
+				l = strings.TrimSpace(l)
+				l = strings.TrimPrefix(l, "import ")
+				if l == "" || l == "(" || l == ")" || l == "import (" {
+					continue
+				}
+				specs = append(specs, l)
+			}
+			decor := pick(t, "importDecorKind", []string{"//line x.go:1000\n", "// a comment\n", "\n", "//line x.go:1000\n\n\t// doc for the next import\n"})
+			imp = "import (\n"
+			for i, sp := range specs {
+				imp += "\t" + sp + "\n"
+				if i == 0 {
+					imp += decor
+				}
+			}
+			imp += "\t\"fmt\"\n)"
+		}
+		tb.WriteString(imp + "\n\n")
 	}
 	n := rapid.IntRange(1, 3).Draw(t, "nInst")
 	for k := 0; k < n; k++ {
